@@ -88,7 +88,7 @@ TESTED_NOT_PROVED = [
     "(oracle on every option / helper / list / history case)",
     "isinstance(order, tuple) in find_unequal_order_edges: ITS graphs whose order is a list are outside the model (the library never builds them)",
 ]
-LEVEL_TEXT = ("Machine-checked proof (Coq, 41 theorems, all closed under the global context) over an executable model of get_rc and RadiusExpand: on every "
+LEVEL_TEXT = ("Machine-checked proof (Coq, 43 theorems, all closed under the global context) over an executable model of get_rc and RadiusExpand: on every "
               "well-formed ITS graph whose standard_order is the order difference the centre contains a bond iff its two orders differ or both atoms "
               "are hydrogens (for ignore_aromaticity ITS graphs: iff the orders differ by at least 1, with a witness that 'differs' alone fails; "
               "stated also on the two sides: for the ITS of a reactant graph G and a product graph H two atoms are joined in the centre iff they are "
@@ -101,7 +101,7 @@ LEVEL_TEXT = ("Machine-checked proof (Coq, 41 theorems, all closed under the glo
               "every variant; with default options the general function is get_rc; every variant is well-formed, commutes with injective renumberings and is "
               "idempotent when element_key keeps element and typesGH).  Helpers: find_unequal_order_edges is a subset of the centre "
               "atoms, equal without unchanged H-H bonds, strict in general; remove_normal_edges keeps exactly the standard_order != 0 bonds; "
-              "extract_k option handling incl. n_knn=-1 (longest_radius_extension: the result is the first longest path of the search trace and every traced path is a longest simple chain of unchanged bonds from its start atom avoiding the atoms excluded at that moment); the contexts commute with renumbering; remove_normal_edges for standard_order and is_mtg; extract_subgraph; list extraction is element-wise.  The model is compared with the Python code on every run "
+              "extract_k option handling incl. n_knn=-1 (longest_radius_extension: the result is the first longest path of the search trace and every traced path is a longest simple chain of unchanged bonds from its start atom avoiding the atoms excluded at that moment); the contexts commute with renumbering, carry the centre (the centre of a context is the centre) and nest (the radius-k context of a radius-k' context is the radius-k context); remove_normal_edges for standard_order and is_mtg; extract_subgraph; list extraction is element-wise.  The model is compared with the Python code on every run "
               "(exhaustive <= 3-node scopes for the default and for the options, random/inconsistent/ignore_aromaticity ITS graphs, corpus "
               "reactions and rewritings, radii 0..7, 50 and -1, lists, wrappers rsmi_to_its(core) and HierContext.fit, degenerate values, 100-150 atoms) and, since "
               "round 3, on HISTORIES: scripts of 3-7 calls and in-place edits on one shared ITS object.")
@@ -737,13 +737,13 @@ def oracle_hist(case):
             continue
         V = E.to_nx(g)
         cls = its_class(V)
-        if cls is None or st[0] not in ("rc", "k", "hk", "ctx", "ctx2", "list", "list2") or (st[0] != "rc" and st[1] is not None and st[1] < 0):
+        if cls is None or st[0] not in ("rc", "rck", "kk", "k", "hk", "ctx", "ctx2", "list", "list2") or (st[0] != "rc" and st[1] is not None and st[1] < 0):
             continue
         el = {n: d["element"] for n, d in V.nodes(data=True)}
         bonds = {frozenset((u, v)) for u, v, d in V.edges(data=True) if differs(d["order"], cls) or (el[u] == "H" and el[v] == "H")}
         centre = {x for b in bonds for x in b}
         ret, _o = HS.run_query(I, st)
-        k = 0 if (st[0] == "rc" or st[1] is None) else st[1]
+        k = 0 if (st[0] in ("rc", "rck") or st[1] is None) else (min(st[1], st[2]) if st[0] == "kk" else st[1])
         want = _ball(V, centre, k)
         for r in ret:
             if set(r.nodes) != want:
